@@ -5,7 +5,8 @@ import (
 	"errors"
 	"fmt"
 	"net/http"
-	"regexp"
+	"strconv"
+	"strings"
 	"time"
 
 	"github.com/oauth2-proxy/oauth2-proxy/v7/pkg/apis/options"
@@ -69,11 +70,8 @@ func (s *SessionStore) Load(req *http.Request) (*sessions.SessionState, error) {
 // Clear clears any saved session information by writing a cookie to
 // clear the session
 func (s *SessionStore) Clear(rw http.ResponseWriter, req *http.Request) error {
-	// matches CookieName, CookieName_<number>
-	var cookieNameRegex = regexp.MustCompile(fmt.Sprintf("^%s(_\\d+)?$", regexp.QuoteMeta(s.Cookie.Name)))
-
 	for _, c := range req.Cookies() {
-		if cookieNameRegex.MatchString(c.Name) {
+		if s.isSessionCookieName(c.Name) {
 			clearCookie := s.makeCookie(req, c.Name, "", time.Hour*-1)
 
 			http.SetCookie(rw, clearCookie)
@@ -113,6 +111,24 @@ func (s *SessionStore) setSessionCookie(rw http.ResponseWriter, req *http.Reques
 		http.SetCookie(rw, c)
 	}
 	return nil
+}
+
+// isSessionCookieName reports whether name is the session cookie's name or the
+// name splitCookieName gives to one of its parts (which is shortened for long
+// cookie names, so a pattern built from the full name would miss it)
+func (s *SessionStore) isSessionCookieName(name string) bool {
+	if name == s.Cookie.Name {
+		return true
+	}
+	i := strings.LastIndex(name, "_")
+	if i < 0 {
+		return false
+	}
+	n, err := strconv.Atoi(name[i+1:])
+	if err != nil || n < 0 {
+		return false
+	}
+	return splitCookieName(s.Cookie.Name, n) == name
 }
 
 // makeSessionCookie creates an http.Cookie containing the authenticated user's
